@@ -397,7 +397,7 @@ def main(tier):
     lengths = list(range(0, 4)) if tier == "quick" else list(range(0, 6))
     shorts = [1, 2] if tier == "quick" else [1, 2, 3]
     bodies = make_bodies(prog, lengths, shorts)
-    deadline = t0 + (600 if tier == "quick" else 2400)
+    deadline = time.time() + (900 if tier == "quick" else 2400)       # exploration only: builds have their own limits
     # the two 128-bit multiplication lemmas take about a minute: decide them in a child process meanwhile
     import multiprocessing as mp
     q = mp.get_context("fork").Queue()
